@@ -215,6 +215,12 @@ def get_iface(topo, ref):
 def get_service(topo, name, cached=False):
     """cached=True: reuse the handle object an earlier call returned (users keep handles), if there is one.
     name = ['stale', k]: a handle whose service was removed after the handle was obtained (op make_stale_services)."""
+    if isinstance(name, (list, tuple)) and name and name[0] == 'kept':
+        # the handle a caller put aside with op keep_handle (it does not follow later renames made through other handles)
+        h = getattr(topo, '_verif_kept', None)
+        if h is None:
+            raise Unresolved('no handle put aside')
+        return h
     if isinstance(name, (list, tuple)) and name and name[0] == 'stale':
         st = getattr(topo, '_verif_stale_services', None)
         if not st:
@@ -310,8 +316,10 @@ def execute(topo, op):
         return remember(topo, op['name'], topo.add_network_service(name=op['name'], node_id=op.get('node_id'),
                                                                    nstype=ServiceType[op['nstype']], interfaces=ifs, **kw))
     if o == 'add_port_mirror_service':
-        return topo.add_port_mirror_service(name=op['name'], node_id=op.get('node_id'), from_interface_name=op['from'],
-                                            to_interface=get_iface(topo, op['to']), **kw)
+        getattr(topo, '_verif_handles', {}).pop(op['name'], None)       # a kept handle of an earlier service of that name
+        return remember(topo, op['name'], topo.add_port_mirror_service(name=op['name'], node_id=op.get('node_id'),
+                                                                       from_interface_name=op['from'],
+                                                                       to_interface=get_iface(topo, op['to']), **kw))
     if o == 'remove_network_service':
         return topo.remove_network_service(op['name'])
     if o == 'add_node_service':
@@ -342,7 +350,13 @@ def execute(topo, op):
     if o == 'remove_link':
         return topo.remove_link(op['name'])
     if o == 'rename':
-        return get_element(topo, op['elem']).rename(op['new'])
+        r = get_element(topo, op['elem']).rename(op['new'])
+        if op['elem'][0] == 'service':
+            # the harness addresses kept handles by the element's current name
+            hs = getattr(topo, '_verif_handles', {})
+            if op['elem'][1] in hs:
+                hs[op['new']] = hs.pop(op['elem'][1])
+        return r
     if o == 'set_property':
         return get_element(topo, op['elem']).set_property(op['pname'], mk_value(op['pname'], op['val']))
     if o == 'set_properties':
@@ -360,6 +374,9 @@ def execute(topo, op):
         n.add_component(name='stalenic', model_type=ComponentModelType.SmartNIC_ConnectX_6, **kwn)
         topo._verif_stale = list(n.interface_list)
         topo.remove_node(op['name'])
+        return None
+    if o == 'keep_handle':
+        topo._verif_kept = get_service(topo, op['service'])
         return None
     if o == 'make_stale_services':
         # keep the handles of two services, then remove the services the documented way
@@ -425,7 +442,8 @@ class Gen:
         if pool and self.rng.random() > self.p_valid:
             return self.rng.choice(pool)
         # a name that was in use earlier and was given up (rename, removal): users recycle names
-        freed = [n for n in getattr(self, 'former', []) if n not in pool]
+        kind = {'n': 'node', 'fac': 'node', 'sw': 'node', 's': 'service', 'pm': 'service'}.get(prefix)
+        freed = [n for k, n in getattr(self, 'former', []) if k == kind and n not in pool]
         if freed and self.rng.random() < 0.3:
             return self.rng.choice(freed)
         return self.fresh(prefix)
@@ -475,10 +493,13 @@ class Gen:
         op = self._next_op()
         if not hasattr(self, 'former'):
             self.former = []
+        # (a freed name is recycled for an element of the same kind only: the harness addresses elements by name)
         if op['op'] == 'rename' and op['elem'][0] in ('node', 'service'):
-            self.former.append(op['elem'][1])
-        elif op['op'] in ('remove_node', 'remove_facility', 'remove_switch', 'remove_network_service'):
-            self.former.append(op['name'])
+            self.former.append((op['elem'][0], op['elem'][1]))
+        elif op['op'] in ('remove_node', 'remove_facility', 'remove_switch'):
+            self.former.append(('node', op['name']))
+        elif op['op'] == 'remove_network_service':
+            self.former.append(('service', op['name']))
         del self.former[:-6]
         # a caller-supplied id that is already in use (any class) - must be refused without side effects
         if 'node_id' in op and op['op'] != 'make_stale_ifaces' and self.rng.random() > self.p_valid and self.rng.random() < 0.5:
